@@ -1,2 +1,22 @@
-(* C12 t-digest part -- being written *)
-From DS Require Import Base.Prelude Model.TDigestCodec Spec.TDigestLayout.
+(* C12, t-digest part -- the emitted bytes follow the cross-language layout: the independent layout
+   decoder (Spec/TDigestLayout.v, written from the format description with literal constants)
+   recovers exactly the abstract state from the bytes the modelled writer emits.  Statements only;
+   proofs in Proofs/TDigestLayoutProofs.v. *)
+From DS Require Import Base.Prelude Base.TDigestBits Model.TDigestCodec Spec.TDigestLayout Proofs.TDigestCodec Proofs.TDigestLayoutProofs.
+Open Scope N_scope.
+
+(* [abs_of s]: k, reverse_merge, (min, max) unless empty, centroids, buffered values *)
+Theorem c12_tdigest_writer_conforms : forall s, wfb s -> spec_decode Double (tdb_enc s) = Some (abs_of s).
+Proof. exact writer_conforms. Qed.
+
+(* the constants the crate uses (translated from the source on this run) are the specification's *)
+Theorem c12_tdigest_constants :
+  PRE1 = 1 /\ PRE2 = 2 /\ SERVER = 1 /\ FAMID = 20 /\ F_EMPTY = 1 /\ F_SINGLE = 2 /\ F_REV = 4 /\
+  COMPAT_DOUBLE = 1 /\ COMPAT_FLOAT = 2 /\ MINK = 10.
+Proof. exact layout_constants. Qed.
+
+Example c12_tdigest_example :
+  spec_decode Double [2; 1; 20; 100; 0; 4; 0; 0;  1; 0; 0; 0;  0; 0; 0; 0;  0; 0; 0; 0; 0; 0; 0xf0; 0x3f;  0; 0; 0; 0; 0; 0; 0x10; 0x40;
+                      0; 0; 0; 0; 0; 0; 4; 0x40;  2; 0; 0; 0; 0; 0; 0; 0]
+  = Some (mkTdAbs 100 true (Some (0x3ff0000000000000, 0x4010000000000000)) [(0x4004000000000000, 2)] []).
+Proof. vm_compute. reflexivity. Qed.
